@@ -26,6 +26,9 @@ func (ni *nodeInc) main() {
 		return
 	}
 	opt := run.simOptions()
+	if run.dbgOn {
+		opt.Logger = dbgLogger{run, ni.node.id}
+	}
 	r, err := New(opt, ni.fsm, ni.dir)
 	if err != nil {
 		ni.newErr = err
@@ -207,7 +210,8 @@ func (a *admin) submit(ni *nodeInc, t Task, kind string, patience time.Duration)
 	ni.tasks = append(ni.tasks, &taskRec{task: t, kind: kind, submittedAt: run.sim.Steps})
 	select {
 	case <-t.Done():
-		return true
+		// a reply produced by a crashed incarnation while it unwinds never reached anybody
+		return !ni.dead
 	case <-time.After(patience):
 		return false
 	}
